@@ -26,20 +26,76 @@ Binding
 from __future__ import annotations
 
 import json
+import os
 import random
 import re
+from typing import NamedTuple
 
 from ..core import Check, Graph, MachineryError, main, run_tlc
 from ..tlaval import to_tla
 
-CLAUSES = ["TransparentOut", "TransparentJac", "AtMostOnce", "SimpleKeepsLast", "ReopenSame", "Uncached"]
-IMPL_INVS = CLAUSES + ["CallerCannotCorrupt", "Coherent", "DistinctInputs", "Complete", "ITypeOK"]
+CLAUSES = ["TransparentOut", "TransparentJac", "AtMostOnce", "SimpleKeepsLast", "ReopenSame", "Uncached",
+           "CallerCannotCorrupt"]
+IMPL_INVS = CLAUSES + ["StoredByCopy", "Coherent", "DistinctInputs", "Complete", "ITypeOK"]
 KINDS = ["none", "simple", "memShared", "memLocal", "hdf5"]
+FULL = ("memShared", "memLocal", "hdf5")
 SCALE = 8
 TOLN = 2  # tolerance = 2/8 = 0.25
 LATTICES = {"Lattice3": (0, 2, 16), "Lattice4": (0, 2, 5, 16), "Lattice5": (0, 2, 5, 8, 12),
             "Lattice6": (0, 1, 2, 5, 8, 16)}
 CELLS0 = {"c1": 1, "c2": 2}
+# value kinds of the input "x" (DiscCache.tla): the main configurations use 1-D float arrays; the "kinds"
+# configurations enumerate the others.  Containers (dict / list holding arrays) are data of a SimpleGrammar
+# that no converter turns into an array: the full caches "require NumPy arrays" (base_discipline.py) and are
+# not offered them.
+VKINDS_ARRAYS = ["int", "complex", "mat", "str", "pystr"]
+VKINDS_CONTAINERS = ["dict", "list"]
+
+
+class Cfg(NamedTuple):
+    """One configuration = one labelled state graph of DiscCacheImpl.
+    flavour: std | collide (hash collisions injected) | selfupd (self-coupled input updated in place by the
+    body) | kinds (value kinds of "x") | chain (process discipline, cache at chain level) | shadow (deeper
+    histories on a small alphabet with a tolerance: Jacobian-only entries in the tolerance scan)"""
+    kind: str
+    tol: int
+    flavour: str = "std"
+
+    @property
+    def name(self):
+        return f"{self.kind}-{self.tol}" + ("" if self.flavour == "std" else f"-{self.flavour}")
+
+    @property
+    def vkinds(self):
+        if self.flavour != "kinds":
+            return ["float"]
+        return VKINDS_ARRAYS + (VKINDS_CONTAINERS if self.kind in ("none", "simple") else [])
+
+    @property
+    def world_flavour(self):
+        return self.flavour if self.flavour in ("selfupd", "kinds", "chain") else "std"
+
+    @property
+    def variants(self):
+        """The refuted rules (switches of DiscCacheImpl) that can explain a violation in this configuration."""
+        v = []
+        if self.flavour == "selfupd":
+            return v
+        if self.flavour == "collide":  # (same hash table in the variant graph: Collide follows the flavour)
+            return [("shadowScan", {"shadow": True})] if self.kind in FULL and self.tol else v
+        if self.kind == "memLocal" and self.flavour == "std":
+            v.append(("byRef", {"ref": True}))
+        if self.kind == "simple" and self.tol and self.flavour == "std":
+            v.append(("simpleMerge", {"merge": True}))
+        if self.kind in FULL and self.tol:
+            v.append(("shadowScan", {"shadow": True}))
+        if self.flavour == "chain" and self.kind != "none":
+            v.append(("staleMembers", {"stale": True}))
+        return v
+
+
+def cells_of(b):
+    return sorted(b.get("cells", CELLS0))
 
 
 def tla_set(xs):
@@ -50,14 +106,19 @@ def depth_of(b, kind, tol):
     return b.get("depth_for", {}).get((kind, tol), b["depth"])
 
 
-def impl_cfg(kind, tol, b, *, ref=False, merge=False, inplace=False, collide=False, invariants=True, anymatch=False,
-             selfupd=False, keyafter=False):
+def impl_cfg(cfg, b, *, ref=False, merge=False, inplace=False, shadow=False, stale=False, invariants=True,
+             anymatch=False, keyafter=False):
+    kind, tol = cfg.kind, cfg.tol
+    selfupd = cfg.flavour == "selfupd"
     s = (f'CONSTANTS Kind = "{kind}"\n Tol = {tol}\n Scale = {SCALE}\n XV <- {b["lattice"]}\n NZ = {b["nz"]}\n'
-         f' Cells = {tla_set(sorted(CELLS0))}\n ZArgs = {tla_set(b["zargs"])}\n MaxDepth = {depth_of(b, kind, tol)}\n'
+         f' Cells = {tla_set(cells_of(b))}\n ZArgs = {tla_set(b["zargs"])}\n MaxDepth = {depth_of(b, kind, tol)}\n'
+         f' VKinds = {tla_set(cfg.vkinds)}\n'
          f' RefIn = {to_tla(ref)}\n RefOut = {to_tla(ref)}\n SimpleMerge = {to_tla(merge)}\n'
-         f' Inplace = {to_tla(inplace)}\n Collide = {to_tla(collide)}\n'
+         f' Inplace = {to_tla(inplace)}\n Collide = {to_tla(cfg.flavour == "collide")}\n'
          f' LinModes = {tla_set([] if selfupd else b["linmodes"])}\n SelfUpd = {to_tla(selfupd)}\n'
-         f' KeyAfterRun = {to_tla(keyafter)}\n'
+         f' KeyAfterRun = {to_tla(keyafter)}\n ShadowScan = {to_tla(shadow)}\n'
+         f' Process = {to_tla(cfg.flavour == "chain")}\n StaleMembers = {to_tla(stale)}\n'
+         f' Diff0 = {b.get("diff0", 0)}\n'
          f' ExecFlags = {tla_set(b["execflags"])}\n LitXs = {tla_set(b["litxs"])}\n LinZArgs = {tla_set(b["linzargs"])}\n AnyMatch = {to_tla(anymatch)}\n'
          "INIT Init\nNEXT Next\nCONSTRAINT Bound\nCHECK_DEADLOCK FALSE\n")
     if invariants:
@@ -66,16 +127,24 @@ def impl_cfg(kind, tol, b, *, ref=False, merge=False, inplace=False, collide=Fal
     return s
 
 
-def abstract_cfg(kind, tol, depth):
+def abstract_cfg(kind, tol, depth, vkinds=("float",)):
     return (f'CONSTANTS Kind = "{kind}"\n Tol = {tol}\n Scale = {SCALE}\n XV <- Lattice3\n NZ = 1\n'
-            f' Cells = {{"c1"}}\n ZArgs = {{"omit"}}\n MaxDepth = {depth}\n'
+            f' Cells = {{"c1"}}\n ZArgs = {{"omit"}}\n MaxDepth = {depth}\n VKinds = {tla_set(vkinds)}\n'
             "INIT AInit\nNEXT ANext\nCONSTRAINT Bound\nCHECK_DEADLOCK FALSE\n"
             + "".join(f"INVARIANT {i}\n" for i in CLAUSES + ["TypeOK"]))
 
 
-def trace_cfg(kind, tol, b):
-    return (f'CONSTANTS Kind = "{kind}"\n Tol = {tol}\n Scale = {SCALE}\n XV <- {b["lattice"]}\n NZ = {b["nz"]}\n'
-            f' Cells = {tla_set(sorted(CELLS0))}\n ZArgs = {tla_set(b["zargs"])}\n MaxDepth = 0\n'
+def trace_key(cfg, b):
+    """The constants DiscCacheTrace depends on: the traces of the configurations that agree on them are
+    validated by one TLC run (a trace carries its own value kind; cells it never uses are harmless)."""
+    return (cfg.kind, cfg.tol, b["lattice"], b["nz"])
+
+
+def trace_cfg(key, vkinds):
+    kind, tol, lattice, nz = key
+    return (f'CONSTANTS Kind = "{kind}"\n Tol = {tol}\n Scale = {SCALE}\n XV <- {lattice}\n NZ = {nz}\n'
+            f' Cells = {tla_set(sorted(CELLS0))}\n ZArgs = {{"omit"}}\n MaxDepth = 0\n'
+            f' VKinds = {tla_set(sorted(vkinds))}\n'
             "INIT TInit\nNEXT TNext\nCONSTRAINT Reach\nPOSTCONDITION Accepted\nCHECK_DEADLOCK FALSE\n")
 
 
@@ -148,28 +217,32 @@ def replay_job(job):
     """Executed in a worker process: steps real gemseo objects through a chunk of tour paths.
     -> {"traces": [...], "covered": [edge indices conforming], "exceptions": [...], "steps": n}"""
     import logging
-    import traceback
     import warnings
     from pathlib import Path
 
     logging.disable(logging.CRITICAL)
     warnings.filterwarnings("ignore")
-    from .c05_disc import Driver, World
+    from .c05_disc import World
 
     b = job["bounds"]
-    kind, tol, inplace = job["kind"], job["tol"], job["inplace"]
-    world = World(LATTICES[b["lattice"]], SCALE, b["nz"], fx=job.get("fx"))
-    graph = _GRAPHS[job["config"]]  # parsed by the parent before the fork
+    cfg = job["config"]
+    worlds = {}
+
+    def world_of(vkind):  # one world (harness discipline + value table of the uncached twin) per value kind
+        if vkind not in worlds:
+            worlds[vkind] = World(LATTICES[b["lattice"]], SCALE, b["nz"], fx=job.get("fx"),
+                                  flavour=cfg.world_flavour, vkind=vkind)
+        return worlds[vkind]
+
+    graph = _GRAPHS[cfg]  # parsed by the parent before the fork
     work = Path(job["work"])
-    full_entries = kind in ("simple", "memLocal") or job["entries_every_step"]
+    full_entries = cfg.kind in ("simple", "memLocal") or job["entries_every_step"]
     out = {"traces": [], "covered": set(), "exceptions": [], "problems": [], "steps": 0, "paths": 0,
-           "differing": 0, "sample": None}
-    drv = None
-    out["colliding_lookups"] = 0
-    out["cells_updated_by_body"] = 0
-    undo = inject_collisions(world, job["hash_table"], out) if job.get("hash_table") else None
+           "differing": 0, "sample": None, "colliding_lookups": 0, "cells_updated_by_body": 0,
+           "reopen_then_hit": {}, "inner_cells_edited": 0}
+    undo = inject_collisions(world_of("float"), job["hash_table"], out) if job.get("hash_table") else None
     try:
-        _replay_paths(job, graph, world, work, kind, tol, inplace, full_entries, out)
+        _replay_paths(job, graph, world_of, work, cfg.kind, cfg.tol, job["inplace"], full_entries, out)
     finally:
         if undo:
             undo()
@@ -207,7 +280,11 @@ def inject_collisions(world, table, out):
     return undo
 
 
-def _replay_paths(job, graph, world, work, kind, tol, inplace, full_entries, out):
+def path_vkind(graph, path):
+    return str(graph.states[graph.edges[path[0]][0]]["vkind"])
+
+
+def _replay_paths(job, graph, world_of, work, kind, tol, inplace, full_entries, out):
     from .c05_disc import Driver
     import traceback
 
@@ -215,28 +292,42 @@ def _replay_paths(job, graph, world, work, kind, tol, inplace, full_entries, out
     keep = set(random.Random(job["seed"]).sample(range(len(job["paths"])), min(job["keep_conforming"], len(job["paths"]))))
     for n, path in enumerate(job["paths"]):
         tid = job["first_id"] + n
-        drv = Driver(world, kind, tol / SCALE, inplace, work, f"{job['tag']}", CELLS0, reuse=drv)
+        vkind = path_vkind(graph, path)
+        drv = Driver(world_of(vkind), kind, tol / SCALE, inplace, work, f"{job['tag']}",
+                     {c: CELLS0[c] for c in cells_of(job["bounds"])}, reuse=drv, diff0=job["bounds"].get("diff0", 0))
         labels, events, drift = [], [], None
+        reopened = False
         for pos, k in enumerate(path):
             _, dst, action, args = graph.edges[k]
             labels.append(label(action, args))
             try:
                 ev, problem = drv.step(action, args)
             except Exception as ex:  # noqa: BLE001  (an exception of gemseo on an allowed operation)
-                out["exceptions"].append({"id": tid, "labels": list(labels), "action": action,
+                out["exceptions"].append({"id": tid, "vkind": vkind, "labels": list(labels), "action": action,
                                           "exception": type(ex).__name__, "repr": repr(ex),
                                           "traceback": traceback.format_exc(limit=6)})
-                drv = None  # do not reuse a cache left in an unknown state
+                drv.close()  # do not reuse a cache (or a file) left in an unknown state
+                drv = None
                 break
             events.append(ev)
             out["steps"] += 1
             if job["flavour"] == "selfupd" and ev.get("ran") and ev.get("c") != "lit" and ev["after"] != ev["x"][0]:
                 out["cells_updated_by_body"] += 1
+            if action == "MutateCell" and vkind in VKINDS_CONTAINERS:
+                out["inner_cells_edited"] += 1
+            # vacuity of ReopenSame per value kind: a call that the specification serves from the reopened file
+            if action == "Reopen":
+                reopened = True
+            elif reopened and action in CALLS and graph.states[dst]["ret"]["hasOut"] and not graph.states[dst]["ret"]["ran"]:
+                out["reopen_then_hit"][vkind] = out["reopen_then_hit"].get(vkind, 0) + 1
             if problem:
-                out["problems"].append({"id": tid, "labels": list(labels), "action": action, "problem": problem})
+                out["problems"].append({"id": tid, "vkind": vkind, "labels": list(labels), "action": action,
+                                        "problem": problem})
             if drift is None:
                 st = graph.states[dst]
                 diffs = ret_differs(ev, st["ret"]) if action in CALLS else []
+                if action == "MutateCell" and not ev["same"]:
+                    diffs.append("the entries shown by the cache changed with the caller's in-place edit")
                 if kind != "none":
                     last = pos == len(path) - 1
                     if full_entries or last or action in ("Reopen", "ClearCache", "SetCache", "MutateCell"):
@@ -250,8 +341,8 @@ def _replay_paths(job, graph, world, work, kind, tol, inplace, full_entries, out
                     out["covered"].add(k)
         out["paths"] += 1
         out["differing"] += 1 if drift else 0
-        trace = {"id": tid, "kind": kind, "tol": tol, "flavour": job["flavour"], "labels": labels, "events": events,
-                 "drift": drift}
+        trace = {"id": tid, "kind": kind, "tol": tol, "flavour": job["flavour"], "vkind": vkind, "labels": labels,
+                 "events": events, "drift": drift}
         if drift or n in keep:  # every differing trace, a seeded sample of the conforming ones
             out["traces"].append(trace)
         if out["sample"] is None and len(events) >= 3:
@@ -263,7 +354,7 @@ def _replay_paths(job, graph, world, work, kind, tol, inplace, full_entries, out
 def follow_variant(graph, index, trace):
     """Does the variant graph (a relation: several successors per label) contain a path with the labels of
     the observed trace that reproduces every observed return?"""
-    cur = {graph.init[0]}
+    cur = {s for s in graph.init if str(graph.states[s]["vkind"]) == trace["vkind"]}
     for lab, ev in zip(trace["labels"], trace["events"]):
         nxt = set()
         for s in cur:
@@ -292,8 +383,27 @@ def edge_index(graph):
 
 # ------------------------------------------------------------------ main
 
-def bounds(ck):
-    # TLCGet("level") <= depth: histories of depth-1 steps
+def bounds(ck, flavour="std"):
+    """Alphabet and depth of a configuration (TLCGet("level") <= depth: histories of depth-1 steps)."""
+    if flavour == "kinds":
+        # every value kind x every action on a small alphabet (one caller cell, edited in place); Jacobians
+        # with respect to "z" only ("sub", both levels declared before the history starts)
+        if ck.thorough:
+            return {"lattice": "Lattice4", "nz": 1, "zargs": ["omit", "dflt"], "linzargs": ["omit"], "depth": 5,
+                    "linmodes": ["sub"], "execflags": [True, False], "litxs": [3], "cells": ["c1"], "diff0": 2}
+        return {"lattice": "Lattice3", "nz": 1, "zargs": ["omit"], "linzargs": ["omit"], "depth": 4,
+                "linmodes": ["sub"], "execflags": [True], "litxs": [3], "cells": ["c1"], "diff0": 2}
+    if flavour == "chain":
+        if ck.thorough:
+            return {"lattice": "Lattice4", "nz": 2, "zargs": ["omit", "alt"], "linzargs": ["omit"], "depth": 5,
+                    "linmodes": ["all", "sub"], "execflags": [True, False], "litxs": [3]}
+        return {"lattice": "Lattice4", "nz": 1, "zargs": ["omit"], "linzargs": ["omit"], "depth": 4,
+                "linmodes": ["all", "sub"], "execflags": [True], "litxs": [3]}
+    if flavour == "shadow":
+        # 0 ~ 2 ~ 5 but not 0 ~ 5: execute(0); linearize(2) files J under 2; execute(5) twice - 4 steps;
+        # fresh literal arrays only (no caller cells), all Jacobians
+        return {"lattice": "Lattice4", "nz": 1, "zargs": ["omit"], "linzargs": ["omit"], "depth": 5,
+                "linmodes": ["all"], "execflags": [True], "litxs": [1, 2, 3], "cells": [], "diff0": 2}
     if ck.thorough:
         return {"lattice": "Lattice5", "nz": 2, "zargs": ["omit", "dflt", "alt"], "linzargs": ["omit"],
                 "depth": 5, "linmodes": ["all", "sub"], "execflags": [True, False], "litxs": [1, 3]}
@@ -304,13 +414,30 @@ def bounds(ck):
 REQUIRED = ("Execute", "ExecuteLit", "Linearize", "LinearizeLit", "MutateCell", "SetDiff")
 
 
+def required_actions(cfg):
+    if cfg.flavour == "selfupd":
+        need = ("Execute", "ExecuteLit", "MutateCell")
+    elif cfg.flavour == "kinds":
+        need = ("Execute", "ExecuteLit", "Linearize", "MutateCell")
+    elif cfg.flavour == "shadow":
+        need = ("ExecuteLit", "LinearizeLit")
+    else:
+        need = REQUIRED
+    return need + (("ClearCache",) if cfg.kind != "none" else ()) + (("Reopen",) if cfg.kind == "hdf5" else ()) \
+        + (("SetCache",) if cfg.kind in ("simple", "memShared", "memLocal") else ())
+
+
+# VERIF_C05_PAR=n: at most n TLC runs / replay processes side by side (shared machines)
+PAR = int(os.environ.get("VERIF_C05_PAR", "0") or 0)
+
+
 class TLCJobs:
     """Several TLC runs side by side (each -workers 1, own work directory); the bookkeeping of ck.tlc is
     done in the main thread when the results are collected."""
 
     def __init__(self, ck, parallel=6):
         self.ck = ck
-        self.parallel = parallel
+        self.parallel = min(parallel, PAR) if PAR else parallel
         self.jobs = []
 
     def add(self, key, module, cfg, *, need=(), expect_ok=True, count=True, **kw):
@@ -353,101 +480,81 @@ def chunks(xs, n):
     return [xs[i:i + n] for i in range(0, len(xs), n)]
 
 
+def configurations(ck):
+    t = ck.thorough
+    configs = [Cfg(k, tol) for k in KINDS for tol in ((0,) if k == "none" else (0, TOLN))]
+    # hash collisions injected (not the local-memory cache: same code path as the shared one)
+    if t:
+        configs += [Cfg(k, tol, "collide") for k in ("memShared", "hdf5") for tol in (0, TOLN)]
+    else:
+        configs += [Cfg("memShared", 0, "collide"), Cfg("hdf5", TOLN, "collide")]
+    # the self-coupled flavour (SDisc: the body updates its input array in place, x <- FX(x)); every cache
+    # kind, execution histories; the caller's cell holds FX(x) after a run, so the tours contain "feed the
+    # output back" (x, FX(x), x) through the same cell, another cell and literals
+    configs += [Cfg(k, 0, "selfupd") for k in KINDS]
+    if t:
+        configs += [Cfg(k, TOLN, "selfupd") for k in KINDS if k != "none"]
+    # the value kinds of the input (integer / complex / 2-D / string arrays, plain str, containers of
+    # arrays), every cache kind, exact and tolerance-based matching
+    configs += [Cfg(k, tol, "kinds") for k in KINDS for tol in ((0,) if k == "none" else (0, TOLN))]
+    # a process discipline (MDOChain of two polynomial members) with the cache at chain level
+    if t:
+        configs += [Cfg(k, tol, "chain") for k in KINDS for tol in ((0,) if k == "none" else (0, TOLN))]
+    else:
+        configs += [Cfg("none", 0, "chain"), Cfg("simple", 0, "chain"), Cfg("simple", TOLN, "chain"),
+                    Cfg("memShared", 0, "chain"), Cfg("memLocal", TOLN, "chain"), Cfg("hdf5", 0, "chain")]
+    # deeper histories on a small alphabet, full caches with a tolerance (entries holding a Jacobian only)
+    configs += [Cfg(k, TOLN, "shadow") for k in (FULL if t else ("memShared", "hdf5"))]
+    return configs
+
+
 def run(ck: Check):
     import multiprocessing as mp
     import time
     from concurrent.futures import ProcessPoolExecutor
 
     rng = random.Random(ck.seed)
-    b = bounds(ck)
-    # (kind, tolerance numerator, hash collisions injected)
-    configs = [(k, t, False, False) for k in KINDS for t in ((0,) if k == "none" else (0, TOLN))]
-    if ck.thorough:
-        # (not the local-memory cache: its known defect D4 is classified with collision-free variant graphs)
-        configs += [(k, t, True, False) for k in ("memShared", "hdf5") for t in (0, TOLN)]
-    else:
-        configs += [("memShared", 0, True, False), ("hdf5", TOLN, True, False)]
-    variant_defs = [("memLocal", 0, "byRef", {"ref": True}, (False, True)),
-                    ("memLocal", TOLN, "byRef", {"ref": True}, (False, True)),
-                    ("simple", TOLN, "simpleMerge", {"merge": True}, (False,))]
-
-    # (kind, tol, False, True): the self-coupled flavour (SDisc: the body updates its input array in place,
-    # x <- FX(x)); every cache kind, execution histories; the caller's cell holds FX(x) after a run, so the
-    # tours contain "feed the output back" (x, FX(x), x) through the same cell, another cell and literals
-    configs += [(k, 0, False, True) for k in KINDS]
-    if ck.thorough:
-        configs += [(k, TOLN, False, True) for k in KINDS if k != "none"]
-
-    def name(c):
-        return f"{c[0]}-{c[1]}" + ("-collide" if c[2] else "") + ("-selfupd" if c[3] else "")
+    B = {f: bounds(ck, f) for f in ("std", "kinds", "chain", "shadow")}
+    B["collide"] = B["selfupd"] = B["std"]
+    b = B["std"]
+    configs = configurations(ck)
 
     # ---- 1. TLC.  (a) the clauses alone: satisfiable, not vacuous (the most liberal system);
     #   (b) the implementation-shaped model satisfies every clause, exhaustively within the bounds, and
     #       the same run dumps its labelled state graph; (c) the rules of the code that are switches of
     #       the model: refuted by TLC, and their graph (no invariants) for classification
     jobs = TLCJobs(ck)
-    needs = {}
-    for kind, tol in (("memShared", TOLN), ("hdf5", 0), ("simple", 0), ("none", 0)):
-        jobs.add(f"abs-{kind}-{tol}", "DiscCache", abstract_cfg(kind, tol, 5 if ck.thorough else 4), timeout=900,
+    for kind, tol, vk in (("memShared", TOLN, ("float", "str")), ("hdf5", 0, ("float",)), ("simple", 0, ("dict",)),
+                          ("none", 0, ("float",))):
+        jobs.add(f"abs-{kind}-{tol}", "DiscCache", abstract_cfg(kind, tol, 5 if ck.thorough else 4, vk), timeout=900,
                  need=("AExecute", "ALinearize", "AMutate"))
     for c in configs:
-        kind, tol, collide, selfupd = c
-        need = (REQUIRED if not selfupd else ("Execute", "ExecuteLit", "MutateCell")) \
-            + (("ClearCache",) if kind != "none" else ()) + (("Reopen",) if kind == "hdf5" else ()) \
-            + (("SetCache",) if kind in ("simple", "memShared", "memLocal") else ())
         # (vacuity is checked below on the edge labels of the dumped graph: -coverage slows large runs down)
-        needs[c] = need
-        jobs.add(f"impl-{name(c)}", "DiscCacheImpl", impl_cfg(kind, tol, b, collide=collide, selfupd=selfupd), coverage=False,
-                 timeout=1700, dump=True)
-    for kind, tol, vname, kw, flavours in variant_defs:
-        for inplace in flavours:
-            jobs.add(f"refute-{vname}-{tol}-{inplace}", "DiscCacheImpl",
-                     impl_cfg(kind, tol, b, inplace=inplace, invariants="clauses", **kw),
-                     expect_ok=False, count=False, coverage=False, timeout=900)
+        jobs.add(f"impl-{c.name}", "DiscCacheImpl", impl_cfg(c, B[c.flavour]), coverage=False, timeout=1700, dump=True)
+    # the refuted rules: (name, configuration, switches, discipline flavours (buffer-reusing?))
+    refutations = [("byRef", Cfg("memLocal", 0), {"ref": True}, (False, True)),
+                   ("byRef", Cfg("memLocal", TOLN), {"ref": True}, (False, True)),
+                   ("simpleMerge", Cfg("simple", TOLN), {"merge": True}, (False,)),
+                   ("shadowScan", Cfg("memShared", TOLN, "shadow"), {"shadow": True}, (False,)),
+                   ("staleMembers", Cfg("memShared", 0, "chain"), {"stale": True}, (False,))]
     # the seeded-change class: entry filed under the self-coupled input as it is after the run
-    for kind in KINDS[1:]:
-        jobs.add(f"refute-keyAfterRun-{kind}", "DiscCacheImpl",
-                 impl_cfg(kind, 0, b, selfupd=True, keyafter=True, invariants="clauses"),
-                 expect_ok=False, count=False, coverage=False, timeout=900)
+    refutations += [("keyAfterRun", Cfg(kind, 0, "selfupd"), {"keyafter": True}, (False,)) for kind in KINDS[1:]]
+    for vname, c, kw, flavours in refutations:
+        for inplace in flavours:
+            jobs.add(f"refute-{vname}-{c.name}-{inplace}", "DiscCacheImpl",
+                     impl_cfg(c, B[c.flavour], inplace=inplace, invariants="clauses", **kw),
+                     expect_ok=False, count=False, coverage=False, timeout=900)
     t0 = time.time()
     res = jobs.run()
     ck.extra["timing"] = {"tlc_models_s": round(time.time() - t0, 1)}
-    variants = {}
-    for kind, tol, vname, kw, flavours in variant_defs:
+    for vname, c, kw, flavours in refutations:
         for inplace in flavours:
-            r = res[f"refute-{vname}-{tol}-{inplace}"]
+            r = res[f"refute-{vname}-{c.name}-{inplace}"]
             if not r.violated:
-                raise MachineryError(f"variant {vname} ({kind}, tol {tol}) is not refuted by TLC: the switch is vacuous")
+                raise MachineryError(f"rule {vname} ({c.name}) is not refuted by TLC: the switch is vacuous")
             ck.extra.setdefault("refuted_variants", []).append(
-                {"variant": vname, "kind": kind, "tol": tol, "inplace": inplace, "violates": r.violated,
+                {"variant": vname, "config": c.name, "inplace": inplace, "violates": r.violated,
                  "counterexample": [a.split(" line")[0] for a, _ in r.counterexample()][1:]})
-            variants[(kind, tol, inplace)] = (vname, kw, inplace)
-            if len(flavours) == 1:  # the variant does not depend on the discipline flavour
-                variants[(kind, tol, not inplace)] = variants[(kind, tol, inplace)]
-    for kind in KINDS[1:]:
-        r = res[f"refute-keyAfterRun-{kind}"]
-        if not r.violated:
-            raise MachineryError(f"rule keyAfterRun ({kind}) is not refuted by TLC: the self-coupled flavour is vacuous")
-        ck.extra["refuted_variants"].append(
-            {"variant": "keyAfterRun", "kind": kind, "tol": 0, "violates": r.violated,
-             "counterexample": [a.split(" line")[0] for a, _ in r.counterexample()][1:]})
-    variant_graphs = {}
-
-    def variant_graph(kind, tol, flavour):
-        """Graph of the refuted rule of (kind, tol), built on demand (only when a trace violates a clause)."""
-        var = variants.get((kind, tol, flavour == "inplace"))
-        if var is None or flavour == "selfupd":
-            return None
-        vname, kw, inplace = var
-        key = (vname, tol, inplace)
-        if key not in variant_graphs:
-            jobs.add(f"graph-{vname}-{tol}-{inplace}", "DiscCacheImpl",
-                     impl_cfg(kind, tol, b, inplace=inplace, invariants=False, anymatch=True, **kw),
-                     count=False, coverage=False, timeout=1700, dump=True)
-            jobs.run()
-            vg = slim(Graph(ck.work / f"tlc-graph-{vname}-{tol}-{inplace}" / "DiscCacheImpl.dot"), ("ret",))
-            variant_graphs[key] = (vname, vg, edge_index(vg))
-        return variant_graphs[key]
 
     # ---- 2. spec -> code: transition tours executed on the real objects (worker processes).  The workers
     #         return every trace that differs from DiscCacheImpl somewhere and a seeded sample of the others.
@@ -455,49 +562,57 @@ def run(ck: Check):
     n_sample = 10000 if ck.thorough else 1500   # conforming traces kept per (configuration, flavour)
     graphs, rjobs, first_id = {}, [], 1
     for c in configs:
-        kind, tol, collide, selfupd = c
-        g = slim(Graph(ck.work / f"tlc-impl-{name(c)}" / "DiscCacheImpl.dot"), ("ret", "entries"))
+        bc = B[c.flavour]
+        g = slim(Graph(ck.work / f"tlc-impl-{c.name}" / "DiscCacheImpl.dot"), ("ret", "entries", "vkind"))
         taken = {a for _, _, a, _ in g.edges}
-        for a in needs[c]:
+        for a in required_actions(c):
             if a not in taken:
-                raise MachineryError(f"vacuity: action {a} of DiscCacheImpl [{name(c)}] never taken")
+                raise MachineryError(f"vacuity: action {a} of DiscCacheImpl [{c.name}] never taken")
+        if {str(g.states[s]["vkind"]) for s in g.init} != set(c.vkinds):
+            raise MachineryError(f"vacuity: the graph of {c.name} does not start in every value kind {c.vkinds}")
         # histories of at most depth-1 steps: all their states lie within the level bound of every graph
         # dumped with the same bound (the variant graphs used for classification included)
-        steps = depth_of(b, kind, tol) - 1
+        steps = depth_of(bc, c.kind, c.tol) - 1
         paths = [p for p in g.tour(max_len=steps) if len(p) <= steps]
         graphs[c] = (g, paths)
         _GRAPHS[c] = g
         table = None
-        if collide:
-            tabs = [v[1] for v in res[f"impl-{name(c)}"].printed() if isinstance(v, tuple) and v and v[0] == "HASH"]
+        if c.flavour == "collide":
+            tabs = [v[1] for v in res[f"impl-{c.name}"].printed() if isinstance(v, tuple) and v and v[0] == "HASH"]
             if not tabs:
                 raise MachineryError("the specification did not print its hash table")
             table = {tuple(p): tuple(h) for p, h in tabs[0].items()}
             if len(set(table.values())) == len(table):
                 raise MachineryError("collision injection requested but the hash table has no collision")
         fx = None
-        if selfupd:
-            tabs = [v[1] for v in res[f"impl-{name(c)}"].printed() if isinstance(v, tuple) and v and v[0] == "FX"]
+        if c.flavour == "selfupd":
+            tabs = [v[1] for v in res[f"impl-{c.name}"].printed() if isinstance(v, tuple) and v and v[0] == "FX"]
             if not tabs:
                 raise MachineryError("the specification did not print the state update FX")
             fx = {int(i): int(j) for i, j in (tabs[0].items() if isinstance(tabs[0], dict) else enumerate(tabs[0], 1))}
-        for inplace, budget in plan(ck, kind, tol, collide, selfupd):
+        for inplace, budget in plan(ck, c):
             sel = paths
             if budget is not None and len(paths) > budget:
-                sel = [paths[i] for i in sorted(rng.sample(range(len(paths)), budget))]
+                # the paths on which a reopened file must serve a stored input are always run (every value kind)
+                must = [i for i, p in enumerate(paths) if must_run(c, g, p)]
+                rest = [i for i in range(len(paths)) if i not in set(must)]
+                pick = must + rng.sample(rest, max(0, min(len(rest), budget - len(must))))
+                sel = [paths[i] for i in sorted(pick)]
             chs = chunks(sel, 250 if not ck.thorough else 2000)
             for ch in chs:
-                rjobs.append({"config": c, "kind": kind, "tol": tol, "inplace": inplace, "paths": ch,
-                              "bounds": b, "work": str(ck.work), "tag": f"{name(c)}-{len(rjobs)}",
+                rjobs.append({"config": c, "inplace": inplace, "paths": ch,
+                              "bounds": bc, "work": str(ck.work), "tag": f"{c.name}-{len(rjobs)}",
                               "first_id": first_id, "entries_every_step": ck.thorough, "hash_table": table,
-                              "fx": fx, "flavour": "selfupd" if selfupd else ("inplace" if inplace else "fresh"),
+                              "fx": fx,
+                              "flavour": c.flavour if c.flavour in ("selfupd", "kinds", "chain")
+                              else ("inplace" if inplace else "fresh"),
                               "seed": ck.seed * 100003 + len(rjobs), "keep_conforming": n_sample // len(chs) + 1})
                 first_id += len(ch)
     ck.extra["timing"]["graphs_tours_s"] = round(time.time() - t0, 1)
     t0 = time.time()
     # longest jobs first (HDF5 files, manager-backed dictionaries)
-    order = sorted(range(len(rjobs)), key=lambda i: {"hdf5": 0, "memShared": 1}.get(rjobs[i]["kind"], 2))
-    with ProcessPoolExecutor(8, mp_context=mp.get_context("fork")) as ex:
+    order = sorted(range(len(rjobs)), key=lambda i: {"hdf5": 0, "memShared": 1}.get(rjobs[i]["config"].kind, 2))
+    with ProcessPoolExecutor(min(8, PAR) if PAR else 8, mp_context=mp.get_context("fork")) as ex:
         outs = list(ex.map(replay_job, [rjobs[i] for i in order]))
     routs = [None] * len(rjobs)
     for i, o in zip(order, outs):
@@ -509,68 +624,85 @@ def run(ck: Check):
     n_differing = {c: 0 for c in configs}
     samples = {}
     exercised = {}
+    reopen_hits = {}
+    raised = {}
     n_steps = 0
     for job, out in zip(rjobs, routs):
         c = job["config"]
-        exercised[c] = exercised.get(c, 0) + out["colliding_lookups"] + out["cells_updated_by_body"]
+        exercised[c] = exercised.get(c, 0) + out["colliding_lookups"] + out["cells_updated_by_body"] \
+            + out["inner_cells_edited"]
+        for vk, n in out["reopen_then_hit"].items():
+            reopen_hits.setdefault(c, {})[vk] = reopen_hits.get(c, {}).get(vk, 0) + n
         n_paths[c] += out["paths"]
         n_differing[c] += out["differing"]
         if out["sample"] and c not in samples:
             samples[c] = out["sample"]
-        sig = {"kind": job["kind"], "tolerance": "t" if job["tol"] else "0",
-               "discipline": job["flavour"]}
+        sig = {"kind": c.kind, "tolerance": "t" if c.tol else "0", "discipline": job["flavour"]}
         all_traces[c] += out["traces"]
         covered[c] |= set(out["covered"])
         n_steps += out["steps"]
         for e in out["exceptions"]:
-            ck.violation("NoException", dict(sig, action=e["action"], exception=e["exception"]), e)
+            raised.setdefault(c, set()).add(e["vkind"])
+            ck.violation("NoException", dict(sig, vkind=e["vkind"], action=e["action"], exception=e["exception"]), e)
         for e in out["problems"]:
-            ck.violation("BodyCalledOnce", dict(sig, action=e["action"]), e)
-    for c in configs:  # vacuity of the two special set-ups: silent loss of the test double / of the in-place body
-        if c[2] and not exercised.get(c):
-            raise MachineryError(f"collision injection had no effect in {name(c)}: no hash value was shared by two inputs")
-        if c[3] and not exercised.get(c):
-            raise MachineryError(f"self-coupled flavour had no effect in {name(c)}: the body never updated a caller's array")
-    ck.extra["colliding_hash_lookups"] = sum(v for c, v in exercised.items() if c[2])
-    ck.extra["caller_arrays_updated_in_place_by_the_body"] = sum(v for c, v in exercised.items() if c[3])
+            ck.violation("BodyCalledOnce", dict(sig, vkind=e["vkind"], action=e["action"]), e)
+    for c in configs:  # vacuity of the special set-ups: silent loss of the test double / of the in-place body ...
+        if c.flavour == "collide" and not exercised.get(c):
+            raise MachineryError(f"collision injection had no effect in {c.name}: no hash value was shared by two inputs")
+        if c.flavour == "selfupd" and not exercised.get(c):
+            raise MachineryError(f"self-coupled flavour had no effect in {c.name}: the body never updated a caller's array")
+        if c.flavour == "kinds" and c.kind == "simple" and not exercised.get(c):
+            raise MachineryError(f"{c.name}: no array held by a container-valued input was edited in place")
+        if c.flavour == "kinds" and c.kind == "hdf5":
+            # (a value kind whose calls raise - reported above as NoException - stops its paths there)
+            missing = [vk for vk in c.vkinds if not reopen_hits.get(c, {}).get(vk) and vk not in raised.get(c, ())]
+            if missing:
+                raise MachineryError(f"{c.name}: no call served by a reopened file was replayed for the value kinds {missing}")
+    ck.extra["colliding_hash_lookups"] = sum(v for c, v in exercised.items() if c.flavour == "collide")
+    ck.extra["caller_arrays_updated_in_place_by_the_body"] = sum(v for c, v in exercised.items() if c.flavour == "selfupd")
+    ck.extra["inner_arrays_of_containers_edited_in_place"] = sum(v for c, v in exercised.items() if c.flavour == "kinds")
+    ck.extra["calls_served_by_a_reopened_file_per_value_kind"] = {c.name: v for c, v in reopen_hits.items()}
     stats = {}
     for c in configs:
         g, paths = graphs[c]
-        tr = all_traces[c]
-        stats[name(c)] = {
+        stats[c.name] = {
             "states": len(g.states), "edges": len(g.edges), "tour_paths": len(paths), "paths_run": n_paths[c],
             "edges_conforming": len(covered[c]), "paths_differing": n_differing[c]}
         if c in samples:
-            ck.sample({"config": name(c), "labels": samples[c]["labels"], "events": samples[c]["events"]}, limit=14)
+            ck.sample({"config": c.name, "vkind": samples[c]["vkind"], "labels": samples[c]["labels"],
+                       "events": samples[c]["events"]}, limit=14)
 
     # ---- 3. code -> spec: the clauses evaluated by TLC on the recorded traces: every trace that differs from
     #         DiscCacheImpl somewhere, and the sample of the conforming ones (a conforming trace returns
     #         what the model returns, and TLC has shown that the model satisfies the clauses)
-    validated = {}
-    tjobs = []
+    validated = {c: all_traces[c] for c in configs}
+    groups = {}
     for c in configs:
-        validated[c] = all_traces[c]
-        for k, ch in enumerate(chunks(validated[c], 20000) or [[]]):
-            f = ck.work / f"c05-traces-{name(c)}-{k}.json"
-            f.write_text(json.dumps([{"id": t["id"], "events": t["events"]} for t in ch] or [{"id": 0, "events": []}]))
-            jobs.add(f"trace-{name(c)}-{k}", "DiscCacheTrace", trace_cfg(c[0], c[1], b), timeout=1700, coverage=False,
+        groups.setdefault(trace_key(c, B[c.flavour]), []).append(c)
+    tjobs = []
+    for key, cs in groups.items():
+        traces = [t for c in cs for t in validated[c]]
+        vkinds = {vk for c in cs for vk in c.vkinds}
+        gname = "-".join(map(str, key))
+        for k, ch in enumerate(chunks(traces, 20000) or [[]]):
+            f = ck.work / f"c05-traces-{gname}-{k}.json"
+            f.write_text(json.dumps([{"id": t["id"], "vkind": t["vkind"], "events": t["events"]} for t in ch]
+                                    or [{"id": 0, "vkind": sorted(vkinds)[0], "events": []}]))
+            jobs.add(f"trace-{gname}-{k}", "DiscCacheTrace", trace_cfg(key, vkinds), timeout=1700, coverage=False,
                      env={"TRACE_FILE": str(f)})
-            tjobs.append((c, f"trace-{name(c)}-{k}"))
+            tjobs.append(f"trace-{gname}-{k}")
     t0 = time.time()
     res = jobs.run()
     ck.extra["timing"]["tlc_traces_s"] = round(time.time() - t0, 1)
-    n_viol = 0
+    reached, bad = {}, {}   # (trace ids are unique over all the configurations)
+    for key in tjobs:
+        for v in res[key].printed():
+            if isinstance(v, tuple) and v and v[0] == "TRACE":
+                reached[v[1]] = (v[2], v[3])
+            elif isinstance(v, tuple) and v and v[0] == "BAD":
+                bad.setdefault(v[1], []).append((v[2], str(v[3])))
+    violating = []   # (configuration, trace, first violating step, clauses)
     for c in configs:
-        kind, tol, collide, selfupd = c
-        reached, bad = {}, {}
-        for cc, key in tjobs:
-            if cc != c:
-                continue
-            for v in res[key].printed():
-                if isinstance(v, tuple) and v and v[0] == "TRACE":
-                    reached[v[1]] = (v[2], v[3])
-                elif isinstance(v, tuple) and v and v[0] == "BAD":
-                    bad.setdefault(v[1], []).append((v[2], str(v[3])))
         for t in validated[c]:
             if t["id"] not in reached:
                 raise MachineryError(f"no verdict for trace {t['id']}")
@@ -581,25 +713,57 @@ def run(ck: Check):
                 continue
             if not t["drift"]:
                 raise MachineryError(f"trace {t['id']} conforms to DiscCacheImpl and violates a clause: {t['labels']}")
-            n_viol += 1
             step = min(s for s, _ in bad[t["id"]])
-            clauses = sorted({cl for s, cl in bad[t["id"]] if s == step})
-            var = None if collide else variant_graph(kind, tol, t["flavour"])
-            explained = var[0] if var and follow_variant(var[1], var[2], t) else "none"
-            for clause in clauses:
-                ck.violation(clause, {"kind": kind, "tolerance": "t" if tol else "0",
-                                      "discipline": t["flavour"],
-                                      "explained_by": explained},
-                             {"labels": t["labels"][:step], "events": t["events"][:step],
-                              "first_difference_with_DiscCacheImpl": t["drift"], "collisions_injected": collide,
-                              "lattice": list(LATTICES[b["lattice"]]), "scale": SCALE,
-                              "tolerance": tol / SCALE})
+            violating.append((c, t, step, sorted({cl for s, cl in bad[t["id"]] if s == step})))
+
+    # classification: is the violating trace a behaviour of the model under one of the refuted rules (or under
+    # all of them together)?  The graphs of those variants (no invariants) are built for the configurations
+    # that have a violating trace only, side by side.
+    t0 = time.time()
+    vgraphs = {}
+    for c, t, _, _ in violating:
+        inplace = t["flavour"] == "inplace"
+        cands = [[v] for v in c.variants] + ([c.variants] if len(c.variants) > 1 else [])
+        for combo in cands:
+            key = (c, inplace, "+".join(v for v, _ in combo))
+            if key not in vgraphs:
+                kw = {}
+                for _, k in combo:
+                    kw.update(k)
+                vgraphs[key] = f"graph-{key[2]}-{c.name}-{inplace}"
+                jobs.add(vgraphs[key], "DiscCacheImpl",
+                         impl_cfg(c, B[c.flavour], inplace=inplace, invariants=False, anymatch=True, **kw),
+                         count=False, coverage=False, timeout=1700, dump=True)
+    jobs.run()
+    for key, run_name in list(vgraphs.items()):
+        vg = slim(Graph(ck.work / f"tlc-{run_name}" / "DiscCacheImpl.dot"), ("ret", "vkind"))
+        vgraphs[key] = (vg, edge_index(vg))
+    ck.extra["timing"]["tlc_variant_graphs_s"] = round(time.time() - t0, 1)
+    n_viol = 0
+    for c, t, step, clauses in violating:
+        n_viol += 1
+        inplace = t["flavour"] == "inplace"
+        explained = "none"
+        for key, (vg, idx) in vgraphs.items():
+            if key[0] == c and key[1] == inplace and follow_variant(vg, idx, t):
+                explained = key[2]
+                break
+        for clause in clauses:
+            ck.violation(clause, {"kind": c.kind, "tolerance": "t" if c.tol else "0",
+                                  "discipline": t["flavour"], "vkind": t["vkind"],
+                                  "explained_by": explained},
+                         {"labels": t["labels"][:step], "events": t["events"][:step],
+                          "first_difference_with_DiscCacheImpl": t["drift"], "collisions_injected": c.flavour == "collide",
+                          "lattice": list(LATTICES[B[c.flavour]["lattice"]]), "scale": SCALE,
+                          "tolerance": c.tol / SCALE})
     ck.traces = sum(n_paths.values())
     ck.extra["replay"] = stats
     ck.extra["paths_replayed"] = ck.traces
     ck.extra["steps_replayed"] = n_steps
-    ck.extra["paths_replayed_with_collision_injection"] = sum(n_paths[c] for c in configs if c[2])
-    ck.extra["paths_replayed_self_coupled_inplace"] = sum(n_paths[c] for c in configs if c[3])
+    ck.extra["paths_replayed_with_collision_injection"] = sum(n_paths[c] for c in configs if c.flavour == "collide")
+    ck.extra["paths_replayed_self_coupled_inplace"] = sum(n_paths[c] for c in configs if c.flavour == "selfupd")
+    ck.extra["paths_replayed_value_kinds"] = sum(n_paths[c] for c in configs if c.flavour == "kinds")
+    ck.extra["paths_replayed_process_discipline"] = sum(n_paths[c] for c in configs if c.flavour == "chain")
     ck.extra["paths_differing_from_DiscCacheImpl"] = sum(s["paths_differing"] for s in stats.values())
     ck.extra["traces_validated_by_DiscCacheTrace"] = sum(len(v) for v in validated.values())
     ck.extra["traces_with_refuted_clause"] = n_viol
@@ -607,11 +771,13 @@ def run(ck: Check):
     ck.assumptions += [
         "tolerance relation: reference norm on either side accepted (the code uses the new input, the docstring the cached one)",
         "HDF5Cache.clear() is only offered on a non-empty cache (KeyError on a never-written node, D13, is outside the statement)",
-        "linearize(execute=False) is only offered right after a call at the same input (its documented precondition)",
+        "linearize(execute=False) is only offered right after a call at the same input (its documented precondition: 'the discipline was executed with the right input data')",
         "outputs/Jacobians are identified with lattice points through an uncached twin (value table of G and J)",
         "between two tour paths the cache object is emptied with clear() and reused (building a full cache costs 15-35 ms)",
         "self-coupled flavour (body updates its input array in place): execution histories only - linearize() re-reads the modified input array, with or without a cache",
         "collision injection: hash_data as imported by base_full_cache/_hdf5_file_singleton is replaced in the worker process by the specification's colliding hash table",
+        "value kinds: complex inputs have a zero imaginary part (the HDF5 file keeps real parts only, by construction: to_real); values without a norm (strings, lists) are within a tolerance iff equal; container-valued inputs (dict/list of arrays) are offered to no cache and SimpleCache only (the full caches require data that the grammar converts to arrays); Jacobians of the value-kind flavour are taken with respect to the float input only",
+        "process-discipline flavour: the body of a chain is the execution of its members by the chain; members re-executed from inside the assembly of the Jacobian count as linearization work",
     ]
 
     # ---- specification growth (outside C05 as stated): the data protocol of Discipline.execute without a cache
@@ -621,15 +787,60 @@ def run(ck: Check):
     g05_disc_io.run(ck)
 
 
-def plan(ck, kind, tol, collide=False, selfupd=False):
+def must_run(c, graph, path):
+    """Paths that a sample always contains: the shapes of the model state a flavour exists for (criteria on
+    the states of the specification, evaluated on the dumped graph)."""
+    if c.flavour == "kinds":
+        return serves_after_reopen(graph, path)
+    if c.flavour == "shadow":
+        return partial_entry_then_two_steps(graph, path)
+    return False
+
+
+def partial_entry_then_two_steps(graph, path):
+    """An entry holding a Jacobian only exists at least two steps before the end of the path."""
+    return any(any(e["jl"] > 0 and not e["hasOut"] for e in graph.states[graph.edges[k][1]]["entries"])
+               for k in path[:-2])
+
+
+def serves_after_reopen(graph, path):
+    """The specification serves a call of this path from the file reopened earlier in the path."""
+    reopened = False
+    for k in path:
+        _, dst, action, _ = graph.edges[k]
+        if action == "Reopen":
+            reopened = True
+        elif reopened and action in CALLS:
+            r = graph.states[dst]["ret"]
+            if r["hasOut"] and not r["ran"]:
+                return True
+    return False
+
+
+def plan(ck, c):
     """Discipline flavours (inplace?) and number of tour paths executed per configuration (None = the whole
     tour).  The whole tour on the cheap caches, a seeded sample on the caches that go through a manager
     process or an HDF5 file; quick tier: the buffer-reusing discipline only where a group could be kept by
     reference (SimpleCache, local-memory cache)."""
+    kind = c.kind
     if kind == "none":
-        return [(False, None)]
-    if selfupd:  # small graphs (execution histories): the whole tour but on the HDF5 files in the quick tier
+        return [(False, None if c.flavour in ("std", "selfupd") and (ck.thorough or c.flavour == "std")
+                 else 8000 if ck.thorough else 500)]
+    if c.flavour == "selfupd":  # small graphs (execution histories): the whole tour but on the HDF5 files in the quick tier
         return [(False, None if ck.thorough or kind != "hdf5" else 600)]
+    if c.flavour == "kinds":
+        if ck.thorough:
+            return [(False, {"memShared": 6000, "hdf5": 4000}.get(kind, 8000))]
+        return [(False, {"memShared": 400, "memLocal": 500, "hdf5": 500}.get(kind))]
+    if c.flavour == "chain":
+        if ck.thorough:
+            return [(False, {"memShared": 6000, "hdf5": 4000}.get(kind, 8000))]
+        return [(False, {"simple": 800, "memShared": 500, "memLocal": 800, "hdf5": 400}[kind])]
+    if c.flavour == "shadow":
+        if ck.thorough:
+            return [(False, {"memShared": 1000, "hdf5": 800}.get(kind))]
+        return [(False, {"memShared": 500, "hdf5": 400}[kind])]
+    collide = c.flavour == "collide"
     if ck.thorough:
         n = {"simple": None, "memLocal": None, "memShared": 15000, "hdf5": 8000}[kind]
         if collide:
@@ -638,9 +849,9 @@ def plan(ck, kind, tol, collide=False, selfupd=False):
     if collide:
         return [(False, None if kind == "memShared" else 400)]
     if kind == "simple":
-        return [(False, None), (True, None)]
+        return [(False, None), (True, 1000)]
     if kind == "memLocal":
-        return [(False, None), (True, None)]
+        return [(False, None), (True, 1000)]
     if kind == "memShared":
         return [(False, 1200)]
     return [(False, 700)]
